@@ -58,6 +58,9 @@ var universe = []P{
 	{OS: "linux", Architecture: "ppc64le"},
 	{OS: "linux", Architecture: "s390x"},
 	{OS: "linux", Architecture: "riscv64"},
+	{OS: "linux", Architecture: "ppc64le", Variant: "v1"},
+	{OS: "linux", Architecture: "386", Variant: "v1"},
+	{OS: "linux", Architecture: "riscv64", Variant: "v1"},
 	{OS: "windows", Architecture: "amd64"},
 	{OS: "windows", Architecture: "amd64", OSVersion: "10.0.17763.1"},
 	{OS: "windows", Architecture: "amd64", OSVersion: "10.0.17763.2000"},
@@ -162,6 +165,25 @@ func oracleRunnable(host, tgt P) bool {
 		return false
 	}
 	if ho == "windows" && to == "windows" && host.OSVersion != "" && build3(host.OSVersion) != build3(tgt.OSVersion) {
+		return false
+	}
+	return true
+}
+
+// oracleExact: the entry is the requested platform itself (documented alias spellings aside).
+func oracleExact(req, p P) bool {
+	// os.features are left out on both sides: the statement's ordering does not mention them and the package
+	// does not rank by them
+	if canonOS(req.OS) != canonOS(p.OS) || req.OSVersion != p.OSVersion {
+		return false
+	}
+	ra, rv := canonArch(req.Architecture, req.Variant)
+	pa, pv := canonArch(p.Architecture, p.Variant)
+	if ra != pa || rv != pv {
+		return false
+	}
+	// variants that are not numbers ("sse2", "power9") only equal themselves
+	if rv == 0 && req.Variant != p.Variant {
 		return false
 	}
 	return true
@@ -290,6 +312,17 @@ func checkSearch(req P, l []*P, viaManifest bool, st *stats) {
 		st.exact++
 		if !platform.Match(req, c) {
 			run.Violation("search/exact-match-passed-over", fmt.Sprintf("request %s list %s: chose %s although an exact match is listed", ps(&req), listStr(l), ps(&c)), w)
+		}
+	}
+	// the same law judged without the package: an entry that spells the request itself (same OS, architecture,
+	// variant and os.version, after the documented alias spellings) is listed, so the chosen entry
+	// has to be such an entry too - whatever the package's own Match / Better say
+	if !oracleExact(req, c) {
+		for _, p := range l {
+			if p != nil && oracleExact(req, *p) {
+				run.Violation("search/exact-match-passed-over/independent", fmt.Sprintf("request %s list %s: chose %s although %s is the requested platform itself", ps(&req), listStr(l), ps(&c), ps(p)), w)
+				break
+			}
 		}
 	}
 	cmp := platform.NewCompare(req)
